@@ -328,3 +328,15 @@ Example C04_cli_two_escapes :
     [s_ignored; s_dashdash; [115; 116; 114]; [45; 45; 45]; s_ignored]
   = CliOk (Some RIOnly) (Patterns [[102; 111; 111]; [115; 116; 114]; [45; 45; 45]; s_ignored] [] [] []).
 Proof. vm_compute; reflexivity. Qed.
+
+(* The same with the Kleene premise discharged: for compiled filtersets evaluated by the filterset
+   model of C05 (Model/Filterset.v, any engines, any default filter, any binary), a binary that the
+   pre-filter skips contains no selected test. *)
+From NextestModel Require Import Model.FiltersetAst Model.Filterset Proofs.FilterBridge.
+Theorem C04_binary_sound_filtersets :
+  forall (E : engines) (d : cexpr) (bq : bquery) (es : list cexpr) b r,
+    filter_binary_match (ebs E d bq es) (db E d bq) b = BMismatch r ->
+    forall ri pb p cur name ign,
+      fst (filter_match_full (builder_new ri pb p (ets E d bq es) (dt E d bq) b) cur name ign) <> Matches.
+Proof. exact binary_prefilter_sound_for_filtersets. Qed.
+Print Assumptions C04_binary_sound_filtersets.
